@@ -168,7 +168,9 @@ def explore(chk, budget=1):
         run_oracle(chk, 'pixels', dict(ra0=ra0, dec0=dec0, seed=int(g.integers(1, 10 ** 6))), nontrivial=abs(dec0) > 60 or ra0 < 1 or ra0 > 359)
     files = [dict(config='toy_point_source.py', ra0=10., dec0=75., src_off=(0.03, -0.02), du=2, roll=25., dither=(1.6, 907., 101., 449.)),
              dict(config='toy_point_source_bkg.py', ra0=359.995, dec0=-40., src_off=(0., 0.), du=int(g.integers(1, 4)), roll=0., dither=(1.6, 907., 101., 449.)),
-             dict(config='toy_disk.py', ra0=45., dec0=45., src_off=(0., 0.), du=int(g.integers(1, 4)), roll=float(g.uniform(0, 360)), dither=None)]
+             dict(config='toy_disk.py', ra0=45., dec0=45., src_off=(0., 0.), du=int(g.integers(1, 4)), roll=float(g.uniform(0, 360)), dither=None),
+             # degenerate settings: dithering switched on with zero amplitude (the pointing stays put), or with an infinitely slow pattern
+             dict(config='toy_point_source.py', ra0=120., dec0=-30., src_off=(0.01, 0.02), du=int(g.integers(1, 4)), roll=200., dither=(0., 907., 101., 449.))]
     if not quick:
         files += [dict(config='toy_point_source_bkg.py', ra0=float(g.uniform(0, 360)), dec0=float(g.uniform(-80, 80)), src_off=(0.02, 0.02), du=du, roll=float(g.uniform(0, 360)),
                        dither=(float(g.uniform(0.5, 3.)), 907., 101., 449.)) for du in (1, 2, 3)]
